@@ -432,6 +432,9 @@ func OtherRuleSpecs() []*RuleSpec {
 	for _, f := range []string{"email", "uuid", "hostname", "ipv4", "ipv6", "uri", "date"} {
 		mk("string:format-"+f, "string", TString, fmt.Sprintf("format = %q", f))
 	}
+	for _, f := range []string{"email", "hostname", "uri"} {
+		mk("string:format-"+f+"+list", "string", TString, fmt.Sprintf("format = %q", f), "listRules.searching.searchable = true")
+	}
 	mk("any:only-defined-types", "any", TAny, "onlyDefined = true", `types = ["t.v1.Holder"]`)
 	mk("any:open-types", "any", TAny, `types = ["t.v1.Holder", "other.v1.Thing"]`)
 	mk("array-items:list-searchable", "array-items", TString, "items.string.listRules.searching.searchable = true")
